@@ -88,6 +88,12 @@ StepRules(st, self, types, cache) ==
   \cup (IF (isReqStim /\ m.kind = "Restart" /\ has /\ ~term /\ consulted /\ ~script.err /\ ~script.accepted)
            => (post.status \in {"Failing","Failed"} /\ post.msg = "rejected")
         THEN {} ELSE {"C04.rejectedRestartFails"})
+  (* a restart request that is in order (from the initiator, original base CID and voucher) for a channel whose voucher type has NO registered validator   *)
+  (* (e.g. after a process restart that did not register it again) cannot be validated: like any refused re-validation it fails the channel               *)
+  \cup (IF (isReqStim /\ m.kind = "Restart" /\ has /\ ~term /\ st.panic = "" /\ ~amInit /\ s.from = id.initiator /\ m.base = id.base
+             /\ Len(pre.vouchers) >= 1 /\ m.v = pre.vouchers[1] /\ VType(pre.vouchers[1]) \notin types /\ pre.status \notin Cleanup)
+           => (post.status \in {"Failing","Failed"} /\ ~reply.accepted)
+        THEN {} ELSE {"C04.unvalidatableRestartFails"})
   \cup (IF (isReqStim /\ m.kind = "Restart" /\ has /\ ~term /\ consulted /\ script.err)
            => (post.status \in {"Failing","Failed"})
         THEN {} ELSE {"C04.errorRestartFails"})
